@@ -3,6 +3,8 @@ Line-protocol driver for the C12 model (merge of partial query results above the
 
   new <id> <n>                         context `id` := MetricContext whose plan has n targets
   newp <id> <k1> <k2> ..              context `id` := RootMetricContext.MakePlan over physical plans with k1, k2, .. targets
+  calc <ivs,..> <start> <end> <interval> <auto>   calcTimeRangeAndInterval: `plan <start> <end> <interval> <storage> <ratio>`
+  recalc <ivs,..> <start> <end> <interval> <auto> <storage> <ratio>   the intermediate's MakePlan on the root's statement
   next-stages <hk>:<low>,.. ..         shardScanStage.NextStages over a filtered bitmap: `stages <hk>:<lows> ..`
   resp <id> nf | er | bad              deliver a not-found / other-error / undecodable response
   resp <id> ok <cap> <payload>         deliver a data response
@@ -41,6 +43,7 @@ import LinVerif.Model.C12LeafFilter
 import LinVerif.Model.C12FieldWire
 import LinVerif.Model.C12Plans
 import LinVerif.Model.C12LeafGlue
+import LinVerif.Model.C12TimePlan
 import LinVerif.Generated.C12
 
 namespace LinVerif.Driver.C12
@@ -559,6 +562,22 @@ def step (st : DSt) (ws : List String) : DSt × String :=
     match id.toNat?, n.toNat? with
     | some id, some n => let c := Ctx.new n; (putCtx st id c, showState c)
     | _, _ => (st, "bad-op")
+  | ["calc", ivs, a, b, i, auto] =>
+    match (ivs.splitOn ",").mapM String.toNat?, a.toNat?, b.toNat?, i.toNat?, auto.toNat? with
+    | some (first :: rest), some a, some b, some i, some au =>
+      if (first :: rest).any (· == 0) || au > 1 || b < a then (st, "bad-op") else
+      let r := LinVerif.TimePlan.calcPlan first (first :: rest)
+        { start := a, stop := b, interval := i, storage := 0, ratio := 0, auto := au == 1 }
+      (st, s!"plan {r.start} {r.stop} {r.interval} {r.storage} {r.ratio}")
+    | _, _, _, _, _ => (st, "bad-op")
+  | ["recalc", ivs, a, b, i, auto, sto, rat] =>
+    match (ivs.splitOn ",").mapM String.toNat?, a.toNat?, b.toNat?, i.toNat?, auto.toNat?, sto.toNat?, rat.toNat? with
+    | some (first :: rest), some a, some b, some i, some au, some sto, some rat =>
+      if (first :: rest).any (· == 0) || au > 1 || b < a then (st, "bad-op") else
+      let r := LinVerif.TimePlan.intermediatePlan Generated.C12.intermediateCalcGuarded first (first :: rest)
+        { start := a, stop := b, interval := i, storage := sto, ratio := rat, auto := au == 1 }
+      (st, s!"plan {r.start} {r.stop} {r.interval} {r.storage} {r.ratio}")
+    | _, _, _, _, _, _, _ => (st, "bad-op")
   | "next-stages" :: cs =>
     let parseC (t : String) : Option (Nat × List Nat) :=
       match t.splitOn ":" with
